@@ -15,7 +15,7 @@ from . import C01, C06
 PROPERTY = "C14"
 LEVEL = "exploration"
 TIMEOUT = 600
-BUDGET = {"quick": 200, "thorough": 2000}
+BUDGET = {"quick": 600, "thorough": 3600}
 REQUIRED_MONITORS = ["diagnostics"]
 RULE = ("[87 rule variants: each documented rule in several syntactic positions / spellings, embedded at 6 positions] "
         "Each documented static rule (undefined variable / function / memory / entity, redefinition, assignment to an "
